@@ -827,7 +827,11 @@ class ParserField:
             return no_input if isinstance(no_input, bool) else False
 
         if isinstance(no_input, (str, list, set, tuple)):
-            return options.mode in no_input
+            if options.mode in no_input:
+                return True
+            # not disabled for this mode by no_input: the field's own mode still decides
+            # (the same answer as always_no_input)
+            no_input = False
 
         if no_input is True:
             return True
@@ -884,7 +888,11 @@ class ParserField:
             return no_output if isinstance(no_output, bool) else False
 
         if isinstance(no_output, (str, list, set, tuple)):
-            return options.mode in no_output
+            if options.mode in no_output:
+                return True
+            # not disabled for this mode by no_output: the field's own mode still decides
+            # (the same answer as always_no_output)
+            no_output = False
 
         if no_output is True:
             return True
